@@ -181,7 +181,7 @@ func driveC17(c *driverCtx) error {
 	for _, v := range intBoundaries(64) {
 		emitPrimRoundTrip(c, byName["int64"], reflect.ValueOf(v), "boundary")
 	}
-	nr := c.pick(3000, 150000)
+	nr := c.pick(3000, 1000000)
 	for i := 0; i < nr; i++ {
 		// random magnitudes: uniform over bit lengths so every varint length is realised
 		sh := uint(c.rng.Intn(64))
@@ -205,7 +205,7 @@ func driveC17(c *driverCtx) error {
 	for _, p := range float64Patterns() {
 		emitPrimRoundTrip(c, byName["double"], reflect.ValueOf(math.Float64frombits(p)), "pattern")
 	}
-	nf := c.pick(2000, 100000)
+	nf := c.pick(2000, 600000)
 	for i := 0; i < nf; i++ {
 		f := math.Float32frombits(c.rng.Uint32())
 		emitPrimRoundTrip(c, byName["float"], reflect.ValueOf(f), "random")
@@ -249,7 +249,7 @@ func driveC17(c *driverCtx) error {
 			}
 		}
 	}
-	nb := c.pick(3000, 200000)
+	nb := c.pick(3000, 1000000)
 	for i := 0; i < nb; i++ {
 		n := c.rng.Intn(12)
 		b := make([]byte, n)
